@@ -181,6 +181,14 @@ def run(tier, seed, ev):
                 ev.cls((cls, os.path.basename(f).split("_")[0] if cls not in ("extreme", "manydec") else os.path.basename(f), kind))
         res = TR.run_sharded(rdrv, jobs, sc, "w", timeout=900, cpu_limit=40 if tier == "quick" else 900)
         viols, good = TR.validate_all("Trace_Reader", "Trace_Reader_work", res, ev, "C13", xmx="6g")
+        # every command of the tool returns: the overwrite prompt with every sequence of up to two answers and with input that stops
+        # at, or in the middle of, an answer (TreeModel!Ask: end of input at the prompt ends the tool) - a run stopped by the harness'
+        # CPU / output limits is an event no action matches
+        import c06
+        pres = c06.prompt_pass(rng, sc, tier, ev, maxlen=2)
+        v3, g3 = TR.validate_all("Trace_Extract", "Trace_Extract", pres, ev, "C13", xmx="3g")
+        viols += v3
+        good += g3
         for k, f in mcs.items():
             r = f.result()
             ev.tlc(r)
@@ -207,7 +215,7 @@ def run(tier, seed, ev):
         if os.path.exists(jf):
             for ln in open(jf):
                 p = ln.split()
-                for f in (p[1], p[2]):
+                for f in (p[1:3] if len(p) > 2 and not ln.startswith("{") else []):
                     if os.path.exists(f) and os.path.getsize(f) < 5000000:
                         shutil.copy(f, v["replay"])
     shutil.rmtree(sc, ignore_errors=True)
